@@ -95,10 +95,12 @@ type c02Scenario struct {
 	finished  chan struct{}
 	ran       atomic.Int32
 	tookNs    atomic.Int64
-	ctxDoneNs atomic.Int64 // when the gated handler saw ctx.Done, since its start
+	ctxDoneNs atomic.Int64  // when the gated handler saw ctx.Done, since its start
 	release   chan struct{} // route time-out values: closed by the driver long after the route time-out
 	overran   atomic.Bool   // the handler was ended by `release`, not by ctx.Done
 	dl        atomic.Value  // time.Time: the deadline the handler found in its context (if any)
+	answered  chan struct{} // closed by do() once the chain's answer is known to the client
+	ansOnce   sync.Once
 }
 
 type c02Env struct {
@@ -288,6 +290,17 @@ func (d *c02Drv) handle(w http.ResponseWriter, r *http.Request) {
 			}
 		}
 		sc.ctxDoneNs.Store(int64(time.Since(start)))
+		if r.Context().Err() != nil {
+			// "after the deadline" is meant, not "at the same instant as the deadline": the chain decides
+			// between a finished handler and an ended context with a select, and on a stalled machine a
+			// handler that ends right after the context did can still be seen first.  Both outcomes are
+			// allowed at that coincidence (DESIGN 5, C02), so the post steps wait until the client has its
+			// answer (bounded, in case a chain answers only once the handler has ended).
+			select {
+			case <-sc.answered:
+			case <-time.After(2 * time.Second):
+			}
+		}
 		for i := sc.npre; i <= len(sc.steps); i++ {
 			run(i)
 		}
@@ -454,7 +467,7 @@ func (d *c02Drv) connsEnv(n int, mb int64) (*c02Env, error) {
 
 func (d *c02Drv) newScenario(env *c02Env) *c02Scenario {
 	sc := &c02Scenario{id: strconv.FormatInt(d.seq.Add(1), 10), env: env, term: "finish", npre: 1,
-		entered: make(chan struct{}), preDone: make(chan struct{}), finished: make(chan struct{})}
+		entered: make(chan struct{}), preDone: make(chan struct{}), finished: make(chan struct{}), answered: make(chan struct{})}
 	d.reg.Store(sc.id, sc)
 	return sc
 }
@@ -528,10 +541,12 @@ func (d *c02Drv) do(transport string, env *c02Env, path string, sc *c02Scenario,
 		select {
 		case escaped := <-served:
 			hang.Stop()
+			sc.ansOnce.Do(func() { close(sc.answered) })
 			if escaped != nil {
 				return c02Obs{err: fmt.Sprintf("ESCAPED a panic escaped ServeHTTP of %s: %v", map[bool]string{false: "the whole chain", true: "handler.RecoverHandler"}[transport == "recover"], escaped)}
 			}
 		case <-hang.C:
+			sc.ansOnce.Do(func() { close(sc.answered) })
 			return c02Obs{err: "HUNG no response within " + c02Hang.String() + c02Dump()}
 		}
 		// the handler goroutine may still be running its post steps (or, on a stalled machine, may not
@@ -553,6 +568,7 @@ func (d *c02Drv) do(transport string, env *c02Env, path string, sc *c02Scenario,
 		}
 		req.Header.Set("X-Verif-Id", sc.id)
 		res, err := d.client.Do(req)
+		sc.ansOnce.Do(func() { close(sc.answered) })
 		if err != nil {
 			if time.Since(t0) >= c02Hang {
 				return c02Obs{err: "HUNG no response within " + c02Hang.String() + " (" + err.Error() + ")" + c02Dump()}
